@@ -193,29 +193,45 @@ def check_operators(ctx):
 def check_stripws(ctx):
     c = RF.filter_class(ctx, 'StripWhitespaceFilter')
     f = c.methods['_stripws_default']
-    gdd = Guards(f.node)
-    stores = [n for n in own_nodes(f.node) if isinstance(n, ast.Assign) and any(isinstance(t, ast.Attribute) and t.attr == 'value' for t in n.targets)
-              and any(p_ and e.endswith('.is_whitespace') for e, p_ in [a for a in gdd.facts(n) if a[0] != '|'])]
-    ok = len(stores) == 1 and isinstance(stores[0].value, ast.IfExp) and src(stores[0].value.body) == "''" and src(stores[0].value.orelse) == "' '" \
-        and src(stores[0].value.test) in ('last_was_ws or is_first_char', 'is_first_char or last_was_ws')
-    ctx.ob('R10.5', '_stripws_default:rule', f'{f.mod.relpath}:{f.node.lineno}',
-           'a whitespace token becomes "" if the previous child was whitespace or it is the first child, else " "', ok,
-           f'{[src(s) for s in stores]}')
-    # the two flags of the rule are (re)assigned inside the loop: one from token.is_whitespace, one to False
-    if stores and isinstance(stores[0].value, ast.IfExp) and isinstance(stores[0].value.test, ast.BoolOp):
-        flags = [v.id for v in stores[0].value.test.values if isinstance(v, ast.Name)]
-        loops = [n for n in own_nodes(f.node) if isinstance(n, ast.For)]
-        body_assigns = {}
-        for lp in loops:
-            for n in lp.body:
-                if isinstance(n, ast.Assign) and is_name(n.targets[0]):
-                    body_assigns[n.targets[0].id] = n.value
-        tv = loops[0].target.id if loops and isinstance(loops[0].target, ast.Name) else None
-        ws_flag = [x for x in flags if x in body_assigns and is_attr(body_assigns[x], 'is_whitespace', tv)]
-        first_flag = [x for x in flags if x in body_assigns and isinstance(body_assigns[x], ast.Constant) and body_assigns[x].value is False]
-        ok = len(flags) == 2 and len(ws_flag) == 1 and len(first_flag) == 1
+    # the collapsing rule, decided by interpreting _stripws_default on every whitespace pattern of up to five children:
+    # a whitespace child becomes "" if it is the first child or follows whitespace, else " "; other children are untouched
+    import itertools
+    WSP = TT(('Text', 'Whitespace'))
+    NAME = TT(('Name',))
+    npat, bad = 0, []
+    for n_ in range(1, 6):
+        for pat in itertools.product((True, False), repeat=n_):
+            toks = [ME.AbsToken(ctx.repo, ttype=WSP if w else NAME, value='\n  ' if w else 'x') for w in pat]
+            tl = ME.Obj(tokens=toks)
+            ev = ME.Evaluator(ctx, f.mod, f.cls)
+            ev.effects = True
+            env = {f.params[-1]: tl}
+            if 'self' in f.params:
+                env['self'] = ME.Obj(_cls=c)
+            try:
+                ME.run_function(ev, f.node, env)
+            except (ME.Unsupported, ME.Unknown) as e:
+                ctx.ob('R10.5', '_stripws_default:rule', f'{f.mod.relpath}:{f.node.lineno}', '_stripws_default evaluable', None, str(e))
+                bad = None
+                break
+            except ME.Crash as e:
+                bad.append((pat, f'crash {e}'))
+                continue
+            npat += 1
+            want = []
+            for i, w in enumerate(pat):
+                want.append(('' if (i == 0 or pat[i - 1]) else ' ') if w else 'x')
+            got = [t.value for t in toks]
+            if got != want:
+                bad.append((''.join('_' if w else 'x' for w in pat), got))
+        if bad is None:
+            break
+    if bad is not None:
+        ctx.ob('R10.5', '_stripws_default:rule', f'{f.mod.relpath}:{f.node.lineno}',
+               f'a whitespace token becomes "" if the previous child was whitespace or it is the first child, else " " ({npat} whitespace patterns)', not bad,
+               f'pattern(s) (_ = whitespace child) with a different result: {bad[:3]}')
         ctx.ob('R10.5', '_stripws_default:state', f'{f.mod.relpath}:{f.node.lineno}',
-               'after every child one flag records whether it was whitespace and the other is cleared', ok, f'flags {flags}, updates {list(body_assigns)}')
+               'only whitespace children are rewritten (checked on the same patterns)', not bad, '')
     p = c.methods['_stripws_parenthesis']
     gd = Guards(p.node)
     pops = {}
